@@ -536,4 +536,21 @@ def _dedup_lower(xs):
     return out
 
 
-PROP = C15()
+from srccall import with_src  # noqa: E402
+
+# translated source: the interpreter-tag generators are proved equal to the model functions of PkgModel/Tags.lean;
+# interpreter probes (sys.version_info, platform_tags(), sysconfig.get_config_var, ...) are read from an environment
+# table (PyRt.Env), which Src.envOfCfg builds from the model's configuration record
+PROP = with_src(C15(), share=5, functions=[
+                    "_version_nodot", "_py_interpreter_range", "_abi3_applies", "_is_threaded_cpython", "compatible_tags",
+                    "cpython_tags", "_cpython_abis", "_get_config_var"],
+                module="PkgProofs.Props.Src.Tags",
+                theorems=["Src._version_nodot_translated", "Src._version_nodot_eq_model",
+                          "Src._py_interpreter_range_translated", "Src._py_interpreter_range_eq_model",
+                          "Src._abi3_applies_translated", "Src._abi3_applies_eq_model",
+                          "Src._is_threaded_cpython_translated", "Src._is_threaded_cpython_eq_model",
+                          "Src.Tag.__init___translated", "Src.Tag.__init___eq_model",
+                          "Src.compatible_tags_translated", "Src.compatible_tags_eq_model",
+                          "Src._get_config_var_translated", "Src._get_config_var_eq_model",
+                          "Src._cpython_abis_translated", "Src._cpython_abis_eq_model",
+                          "Src.cpython_tags_translated", "Src.cpython_tags_eq_model"])
